@@ -183,6 +183,8 @@ def run_check(pid, tier, seed, jobs=None):
             datas.append((i, res["data"]))
         if res.get("inconclusive"):
             inconc.append(res["inconclusive"])
+    times = sorted(((results[i]["res"].get("_t", 0), i) for i in results), reverse=True)[:5]
+    cnt_slowest = [{"case": cases[i], "seconds": t} for t, i in times[:3]]
     if watchdog:
         inconc.append("outer wall-clock watchdog fired")
     if missing:
@@ -244,6 +246,7 @@ def run_check(pid, tier, seed, jobs=None):
         "known_findings_reobserved": {cls: len(vs) for cls, vs in known_seen.items()},
         "unlisted_violation_classes": {cls: len(vs) for cls, vs in unknown.items()},
         "inconclusive_reasons": inconc[:20],
+        "slowest_cases": cnt_slowest,
         "repo": repo_state(),
         "verdict": "violated" if unknown else ("inconclusive" if inconc else "held-on-observed"),
     }
